@@ -99,6 +99,18 @@ def run_frames(ctx):
                 for tail in ("eof", "timeout"):
                     sessions.append(({"tail": tail, "to": 1000, "skip": skip, "fire": fire}, [("chunk", s)], ["recv"] * 4))
                     meta.append((s, tail, "recv"))
+    # directed: LONG valid input one receive call has to work through before it can return — thousands of pongs, of pings
+    # it answers, of empty non-final fragments: still a value or a documented exception, however long the run
+    for filler in (F(10, b"").enc(), F(9, b"k").enc(), F(10, b"po").enc()):
+        for n in (1100, 3000):
+            s_ = filler * n + F(1, b"done").enc()
+            for api in ("recv", "recvdata:0", "rdf:0"):
+                sessions.append(({"tail": "eof", "to": 1000}, [("chunk", s_)], [api] * 2))
+                meta.append((s_, "eof", api))
+    s_ = F(2, b"", fin=0).enc() + F(0, b"", fin=0).enc() * 3000 + F(0, b"end", fin=1).enc()
+    for api in ("recv", "recvdata:0"):
+        sessions.append(({"tail": "eof", "to": 1000}, [("chunk", s_)], [api] * 2))
+        meta.append((s_, "eof", api))
     res = rx.run_sessions(ctx, "session:arbitrary-bytes", sessions)
     for (s, tail, api), (impl, model, ws, sock, line) in zip(meta, res):
         outs = rx.results(impl)
